@@ -282,12 +282,30 @@ CHECK = {
             "1-4 rays per caster object with cast() re-use in between and the first ray repeated last (history independence); "
             "non-trivial = a cast of >= 4 cells moving along at least two axes. Paths compared exactly unless the model saw two crossing "
             "parameters closer than 1e-9 (1e-3 float) relative (tie-prone: start cell only; the oracle still applies)",
-    "trusted": ["hand-written model coq/RayCastModel.v (+GridMapModel.v) tied by differential execution (this run)",
+    "trusted": ["translate/tr_C14_raycast.py + translate/eigsym.py (clang JSON AST -> coq/gen/SrcRayCast.v)",
+                "hand-written model coq/RayCastModel.v (+GridMapModel.v): next / ncells / set_origin / set_end proved equal to the generated "
+                "terms (SrcTieC14.v), cast() / cast(end) / cast(origin, end) proved to compute cast_cells / after_cast (SrcTieC14Cast.v); "
+                "operation sequencing on one object (rc_run) tied by differential execution (this run)",
                 "extraction (ExtrOcamlBasic), ocaml/numf.ml, ocaml/drv_C14.ml", "harness/C14.cpp, python oracle in checks/C14.py"],
     "assumptions": ["theorems are over exact (real) arithmetic; float tie-breaking is observed",
                     "Eigen's norm() sums squares left to right for 2- and 3-vectors"],
     "manifest": {
-        "text": "Proved in Coq over exact arithmetic for 2D and 3D casters: the walk of cast() has exactly L1+1 cells, starts in the origin "
+        "text": "SYNTACTIC TIE: the four hand-written specialisations RayCasting<float|double,2|3>::next (each translated separately: a "
+                "change in one of them breaks its own tie lemma), computeRayNumberOfCells, setOriginPoint and setEndPoint (with "
+                "GridIndexMapping::computeCellIndexes / computeCellCenterPosition / getCellResolution inlined, the per-axis loop "
+                "unrolled, if/else merged per variable) are re-translated on every run from the clang AST of the current sources "
+                "(translate/tr_C14_raycast.py + eigsym.py: symbolic execution of the instantiated members -> coq/gen/SrcRayCast.v) "
+                "and proved EQUAL to RayCastModel.next / ncells / set_origin / set_end, the functions every theorem below is about, "
+                "for EVERY numeric dictionary (the real one of the theorems, the float ones of the correspondence run), by "
+                "computation and case analysis only: same operations in the same order (C14_source_tie_*). Integer conversions "
+                "(size_t += int, cast<int>) are explicit in the generated terms: read as the identity they give the model, read with "
+                "wrap-around they give the same result whenever the values fit, which C14_*_indexes_fit proves for a walk. "
+                "cast() itself — the loop `while (++n != cells) { next(cur); ray[n] = cur; }` as a fuelled fix, the returned vector "
+                "as (size, function of the index) — and the overloads cast(end), cast(origin, end) with everything they call inlined "
+                "are translated too and proved to return exactly cast_cells / after_cast of set_end (set_origin c origin) end, the "
+                "model's OpCastOE (C14_source_tie_cast_loop_*, C14_source_tie_cast_end_*, C14_source_tie_cast_origin_end_*); the "
+                "contents of the grid's cell-centre table are a hypothesis there, discharged by C13_source_tie_constructor. "
+                "Proved in Coq over exact arithmetic for 2D and 3D casters: the walk of cast() has exactly L1+1 cells, starts in the origin "
                 "cell, ENDS IN THE END CELL, moves to a face-adjacent cell at every step and stays in the index box of the two cells "
                 "(induction over the walk with a potential function; the choice never lands on a finished axis); per-axis premises "
                 "(step sign agrees with index order, non-negative increments) proved for the state setEndPoint builds; start/end cells "
@@ -300,7 +318,12 @@ CHECK = {
                 "envelope): no numeric premise left there; integer side: with sum of cells per axis <= 2^31-1 every visited index is "
                 "in [0, n_i) and the int cell count and its partial sums fit. Model tied to RayCasting<float|double,2|3> by "
                 "executing the extracted model on the same rays (exact path equality outside near-ties).",
-        "note": "Trusted: Coq kernel, stdlib real axioms; hand model tied by differential run; extraction; float dictionaries; harness; oracle.",
-        "technique": "Coq proof (merge of per-axis crossing sequences; invariants over cast sequences) + extracted-model correspondence",
+        "note": "Trusted: Coq kernel, stdlib real axioms; clang's AST and the translator's reading of it (Eigen coefficient-wise "
+                "operators per axis, .norm() = sqrt of the squares summed from the left, .sum(); signed overflow / out-of-range "
+                "conversions are UB and not modelled; arrays with a run-time size are functions of the index); the sequencing of "
+                "operations on one caster object (rc_run) is tied by the differential run only; "
+                "extraction; float dictionaries; harness; oracle.",
+        "technique": "Coq proof (merge of per-axis crossing sequences; invariants over cast sequences) + source-to-Gallina translation "
+                     "(symbolic execution of the clang AST) with dictionary-polymorphic tie lemmas + extracted-model correspondence",
     },
 }
